@@ -143,3 +143,12 @@ pub mod side {
         (r, v)
     }
 }
+
+/// Run the real start-up computation of the reserved side-metadata size for a given list of VM side
+/// specs (in the order `initialize_side_metadata` passes them): the real
+/// `set_vm_side_metadata_specs` followed by the real `side_metadata_reserved_bytes`.
+/// Once per process (the upper bound lives in a `OnceLock`).
+pub fn reserved_bytes_for_vm_specs(vm_specs: &[SideMetadataSpec]) -> usize {
+    crate::util::metadata::side_metadata::verif_hooks::set_vm_specs(vm_specs);
+    crate::util::metadata::side_metadata::verif_hooks::reserved_bytes()
+}
